@@ -529,6 +529,39 @@ func (g *Gen) callCommon(fn *ssa.Function, st *State, call *ssa.CallCommon, resu
 	if cc == nil {
 		g.unmodelled["uncontracted call "+dispName+" (havoc, may panic)"] = true
 	}
+	if g.c != nil && top {
+		for _, gs := range g.c.GhostSet {
+			if gs[0] != dispName {
+				continue
+			}
+			e2 := g.invEnv()
+			for i, n := range names {
+				if i < len(args) {
+					e2["arg:"+n] = args[i]
+				}
+			}
+			for i := 0; i < rt.Len(); i++ {
+				rv := res
+				if rt.Len() > 1 {
+					rv = res.Tup[i]
+				}
+				if n := rt.At(i).Name(); n != "" && n != "_" {
+					e2[n] = rv
+					e2["$p:"+n] = Val{}
+				}
+				if cc != nil && i < len(cc.Results) {
+					e2[cc.Results[i]] = rv
+					e2["$p:"+cc.Results[i]] = Val{}
+				}
+			}
+			p := &sp{toks: lex(gs[2]), g: g, st: st, env: e2, src: gs[2]}
+			v := p.iff()
+			if p.i != len(p.toks) {
+				panic(specErr{"ghostset: trailing tokens in " + gs[2]})
+			}
+			st.ghost[gs[1]] = Val{T: v.T, Kind: v.Kind}
+		}
+	}
 	g.setResult(result, res)
 }
 
